@@ -44,8 +44,10 @@ LINKS = {
     "C04": {
         "modules": ["RtrProofs.CLinkPdu"],
         "theorems": ["Rtr.CLink.rtr_get_pdu_type_eq", "Rtr.CLink.rtr_pdu_check_size_eq", "Rtr.CLink.rtr_pdu_check_size_safe",
-                     "Rtr.CLink.rtr_pdu_check_size_mem_indep", "Rtr.CLink.rtr_pdu_check_size_known"],
-        "functions": ["rtr_get_pdu_type", "rtr_pdu_check_size"],
+                     "Rtr.CLink.rtr_pdu_check_size_mem_indep", "Rtr.CLink.rtr_pdu_check_size_true_iff",
+                     "Rtr.CLink.rtr_pdu_header_to_host_byte_order_view", "Rtr.CLink.rtr_convert_then_check_size_eq"],
+        "functions": ["rtr_get_pdu_type", "rtr_pdu_check_size", "lrtr_convert_long", "lrtr_convert_short",
+                      "rtr_pdu_convert_header_byte_order", "rtr_pdu_header_to_host_byte_order"],
         "ops": "pdu",
     },
     "C10": {
@@ -63,7 +65,7 @@ LINKS = {
 }
 
 # properties whose link theorems are registered (a property is added here when its CLink module is complete)
-ENABLED = ["C17", "C10", "C14", "C01"]
+ENABLED = ["C17", "C10", "C14", "C01", "C04"]
 
 U32 = 2 ** 32
 
